@@ -372,3 +372,348 @@ Proof.
          repeat split; intros; try lia; try discriminate; try intuition discriminate end).
   all: cbn; repeat split; intros; try lia; try discriminate; try intuition discriminate; auto.
 Qed.
+
+Lemma req_ok_mono s s' q :
+  req_ok s q -> retmax s <= retmax s' -> lim_gen s <= lim_gen s' -> cur s <= cur s' ->
+  (forall u qu, upds s' u = Some qu -> swapped (u_pc qu) = true -> u_ver qu <= lim_gen s ->
+     exists qu0, upds s u = Some qu0 /\ swapped (u_pc qu0) = true /\ u_ver qu0 = u_ver qu /\ u_lim qu0 = u_lim qu) ->
+  req_ok s' q.
+Proof.
+  intros (A & B & C & D & E & F & G & Hh & J) R L Cu U.
+  repeat split; auto; try lia.
+  - destruct (B H) as (B1 & B2 & B3). intros u qu Eu Sw Ev.
+    destruct (U u qu Eu Sw) as (qu0 & E0 & S0 & V0 & L0); [lia|]. rewrite <- L0. apply (B3 u qu0 E0 S0). congruence.
+  - apply Hh; auto.
+Qed.
+
+Ltac feed H :=
+  match type of H with
+  | ?P -> _ => let X := fresh in
+               assert (X : P) by (repeat split; try assumption; try discriminate; try congruence);
+               specialize (H X); clear X
+  end.
+Ltac kill :=
+  repeat match goal with
+  | H : _ /\ _ |- _ => destruct H
+  | H : ?a <> ?a |- _ => exfalso; apply H; reflexivity
+  | H : false = true |- _ => discriminate H
+  | H : true = false |- _ => discriminate H
+  | H : @eq rpc _ _ |- _ => discriminate H
+  | H : @eq hst _ _ |- _ => discriminate H
+  end.
+Ltac req_step I E :=
+  pose proof (i_req _ I _ _ E) as (A & B & C & D & J & F & G & Hh & K);
+  unfold req_ok, passed_lim, passed_en, admitted, called, ran in *; proj; cbn in *; pcrw;
+  try feed B; try feed C; try feed D; try feed J; try feed F; try feed G; try feed G; try feed Hh;
+  repeat split; intros; kill;
+  try feed B; try feed C; try feed D; try feed J; try feed F; try feed G; try feed G; try feed Hh; try feed K; kill;
+  try lia; auto; try solve [eauto]; try (timeout 5 (intuition (discriminate || congruence))).
+
+Lemma step_req s l s'  : Inv s -> step s l = Some s' -> forall r q, reqs s' r = Some q -> req_ok s' q.
+Proof.
+  intros I H x qx Hq. pose proof (i_gen _ I) as G0.
+  destruct l; cbn in H; step_inv H; pcs; proj_in Hq; reqcase Hq.
+  all: try (exact (i_req _ I _ _ Hq)).
+  (* steps of an update: the request is untouched, the state moves monotonically *)
+  all: try (apply (req_ok_mono _ _ _ (i_req _ I _ _ Hq)); proj; try lia;
+            [intros w qw Ew Sw Vw; updcase Ew; eauto]).
+  all: try (cbn in Sw; discriminate Sw).
+  all: try (exists u0; rewrite E0; cbn; auto; fail).
+  all: try (match goal with E : reqs _ _ = Some _ |- req_ok _ _ => timeout 30 (req_step I E) end).
+  1, 2: unfold req_ok, passed_lim, passed_en, admitted, called, ran; proj; cbn; repeat split; intros; kill; try lia; auto; try congruence.
+  - exact (proj2 (proj2 (proj2 (proj2 (i_ver _ I _ _ H0)))) H1 H2).
+  - destruct allow; timeout 60 (req_step I E); destruct (r_lim r0); try discriminate; auto; congruence.
+  - exfalso. destruct (r_lim r0); discriminate.
+  - right. destruct (r_lim r0); auto.
+  - exfalso. destruct (r_lim r0); [discriminate|congruence].
+  - exfalso. destruct (r_lim r0); [discriminate|congruence].
+  - right. destruct (r_lim r0); auto.
+  - pose proof (i_ver _ I _ _ E) as V. rewrite E0 in V. simp_hyps. lia.
+  - pose proof (i_ver _ I _ _ E) as V. rewrite E0 in V. simp_hyps.
+    apply fset_cases in H0. destruct H0 as [[-> ->]|[Hne H0]]; [cbn in H2; lia|eauto].
+Qed.
+
+(* a request that has run keeps r_adm / r_snap_ro for ever *)
+Lemma step_ran_frozen s l s' r q : Inv s -> step s l = Some s' -> reqs s r = Some q -> ran q = true ->
+  exists q', reqs s' r = Some q' /\ ran q' = true /\ r_adm q' = r_adm q /\ r_snap_ro q' = r_snap_ro q.
+Proof.
+  intros I H E R.
+  destruct l; cbn in H; step_inv H; pcs; proj.
+  all: try (exists q; repeat split; auto; fail).
+  all: match goal with |- context [fset _ ?k _ _] => destruct (N.eq_dec r k) as [->|Hne] end.
+  all: try (rewrite fset_neq by exact Hne; exists q; repeat split; auto; fail).
+  all: rewrite fset_eq; eexists; split; [reflexivity|].
+  all: try (match goal with E1 : reqs _ ?k = Some ?a, E2 : reqs _ ?k = Some ?b |- _ =>
+              assert (a = b) by congruence; subst end).
+  all: try congruence.
+  all: unfold ran in *; cbn; pcrw; try discriminate; try (destruct allow); auto.
+Qed.
+
+Lemma step_oplog s l s' : Inv s -> step s l = Some s' ->
+  forall r v ro, In (r, v, ro) (oplog s') ->
+    exists q, reqs s' r = Some q /\ ran q = true /\ v = r_adm q /\ ro = r_snap_ro q.
+Proof.
+  intros I H r v ro Hin.
+  assert (Old : In (r, v, ro) (oplog s) ->
+                exists q, reqs s' r = Some q /\ ran q = true /\ v = r_adm q /\ ro = r_snap_ro q).
+  { intros Hi. destruct (i_oplog _ I _ _ _ Hi) as (q & E & R & -> & ->).
+    destruct (step_ran_frozen _ _ _ _ _ I H E R) as (q' & E' & R' & A' & S'). exists q'. repeat split; auto. }
+  destruct l; cbn in H; step_inv H; pcs; proj_in Hin; try (apply Old; exact Hin).
+  destruct Hin as [Heq|Hin]; [|apply Old; exact Hin].
+  injection Heq as <- <- <-. proj. exists r1. 
+  assert (X : executing r1 = true) by (unfold executing; rewrite E0; reflexivity).
+  assert (Sn : snapped r1 = true) by (unfold snapped; rewrite E0; reflexivity).
+  repeat split; auto.
+  - unfold ran. rewrite E0. reflexivity.
+  - symmetry. exact (i_adm _ I _ _ E X).
+  - symmetry. exact (proj2 (i_snap _ I _ _ E Sn) X).
+Qed.
+
+Lemma step_limlog s l s' : Inv s -> step s l = Some s' ->
+  forall r g lm, In (r, g, lm) (limlog s') -> exists q, reqs s' r = Some q /\ ran q = true /\ g = r_adm q.
+Proof.
+  intros I H r g lm Hin.
+  assert (Old : In (r, g, lm) (limlog s) -> exists q, reqs s' r = Some q /\ ran q = true /\ g = r_adm q).
+  { intros Hi. destruct (i_limlog _ I _ _ _ Hi) as (q & E & R & ->).
+    destruct (step_ran_frozen _ _ _ _ _ I H E R) as (q' & E' & R' & A' & S'). exists q'. repeat split; auto. }
+  destruct l; cbn in H; step_inv H; pcs; proj_in Hin; try (apply Old; exact Hin).
+  destruct Hin as [Heq|Hin]; [|apply Old; exact Hin].
+  injection Heq as <- <- <-. proj. exists r1.
+  assert (X : executing r1 = true) by (unfold executing; rewrite E0; reflexivity).
+  repeat split; auto.
+  - unfold ran. rewrite E0. reflexivity.
+  - (* the generation seen equals the current version: no writer holds the lock while r executes *)
+    rewrite (i_adm _ I _ _ E X).
+    apply (inv_req_in _ _ _ I E) in X.
+    destruct (i_gen_eq _ I) as [G1 G2]. destruct (pmu s) as [h|] eqn:P; [|auto].
+    pose proof (i_pmu _ I) as Q. rewrite P in Q. destruct Q as (qh & Eh & Hd).
+    apply (G1 h qh eq_refl Eh). intros Hs. rewrite Hs in Hd. cbn in Hd.
+    rewrite (i_hold _ I _ Hd) in X. destruct X.
+Qed.
+
+Lemma step_alog s l s' : Inv s -> step s l = Some s' ->
+  forall a, In a (alog s') ->
+    if a_write a then In (LkRW, MW) (a_locks a) /\ In (LkNmu, MW) (a_locks a)
+    else In (LkNmu, MR) (a_locks a) \/ In (LkRW, MR) (a_locks a).
+Proof.
+  intros I H a Hin.
+  destruct l; cbn in H; step_inv H; pcs; proj_in Hin; try (exact (i_alog _ I _ Hin)).
+  all: destruct Hin as [<-|Hin]; [|exact (i_alog _ I _ Hin)]; cbn [a_write a_locks].
+  - left. apply in_or_app. right. left. reflexivity.
+  - right. assert (X : executing r0 = true) by (unfold executing; rewrite E0; reflexivity).
+    apply (inv_req_in _ _ _ I E) in X. apply mem_In in X. unfold held. rewrite X. left. reflexivity.
+  - ufacts I. unfold held. rewrite Pm, Hd, N.eqb_refl. cbn. auto.
+Qed.
+
+Lemma step_inv_preserved s l s' : Inv s -> step s l = Some s' -> Inv s'.
+Proof.
+  intros I H. constructor.
+  - exact (step_readers _ _ _ I H).
+  - exact (step_nodup _ _ _ I H).
+  - exact (step_adm _ _ _ I H).
+  - exact (step_snap _ _ _ I H).
+  - exact (step_hold _ _ _ I H).
+  - exact (step_mid _ _ _ I H).
+  - exact (step_pmu _ _ _ I H).
+  - exact (step_gen _ _ _ I H).
+  - exact (step_gen_eq _ _ _ I H).
+  - exact (step_ver _ _ _ I H).
+  - exact (step_req _ _ _ I H).
+  - exact (step_oplog _ _ _ I H).
+  - exact (step_limlog _ _ _ I H).
+  - exact (step_alog _ _ _ I H).
+Qed.
+
+Lemma run_inv tr : forall s s', Inv s -> run s tr = Some s' -> Inv s'.
+Proof.
+  induction tr as [|l tr IH]; cbn; intros s s' I H.
+  - injection H as <-. exact I.
+  - destruct (step s l) as [s1|] eqn:E; [|discriminate]. exact (IH _ _ (step_inv_preserved _ _ _ I E) H).
+Qed.
+
+Theorem reachable_inv p0 l0 tr s : run (init p0 l0) tr = Some s -> Inv s.
+Proof. apply run_inv. apply inv_init. Qed.
+
+(* ---------- lemmas behind the C16 theorems ---------- *)
+Definition reachable (s : state) : Prop := exists p0 l0 tr, run (init p0 l0) tr = Some s.
+Lemma reachable_Inv s : reachable s -> Inv s.
+Proof. intros (p0 & l0 & tr & H). exact (reachable_inv _ _ _ _ H). Qed.
+
+Lemma atomic_lemma s : reachable s ->
+  (forall r v ro, In (r, v, ro) (oplog s) ->
+     exists q, reqs s r = Some q /\ v = r_adm q /\ v = r_snap q /\ ro = r_snap_ro q) /\
+  (forall r g lm, In (r, g, lm) (limlog s) -> exists q, reqs s r = Some q /\ g = r_adm q).
+Proof.
+  intros R. apply reachable_Inv in R. split.
+  - intros r v ro Hin. destruct (i_oplog _ R _ _ _ Hin) as (q & E & Rn & -> & ->). exists q.
+    assert (Sn : snapped q = true) by (unfold ran in Rn; unfold snapped; destruct (r_pc q); auto; discriminate).
+    destruct (i_snap _ R _ _ E Sn) as [S1 _]. repeat split; auto.
+  - intros r g lm Hin. destruct (i_limlog _ R _ _ _ Hin) as (q & E & Rn & ->). exists q. auto.
+Qed.
+
+Lemma drain_lemma s : reachable s ->
+  forall u qu, upds s u = Some qu -> stored (u_pc qu) = true ->
+  forall r q, reqs s r = Some q -> executing q = true -> u_ver qu <= r_adm q.
+Proof.
+  intros R u qu Eu St r q Er Ex. apply reachable_Inv in R.
+  rewrite (i_adm _ R _ _ Er Ex). exact (proj1 (i_ver _ R _ _ Eu) St).
+Qed.
+
+(* at the instants an update stores and swaps, nothing executes at all *)
+Lemma drain_empty_lemma s : reachable s ->
+  forall u qu, upds s u = Some qu ->
+  (u_pc qu = UHolding \/ u_pc qu = UStored \/ u_pc qu = USwapped) ->
+  readers s = [] /\ forall r q, reqs s r = Some q -> executing q = false.
+Proof.
+  intros R u qu Eu Hpc. apply reachable_Inv in R.
+  assert (M : mid (u_pc qu) = true) by (destruct Hpc as [->|[->| ->]]; reflexivity).
+  destruct (inv_holder _ _ _ R Eu M) as [P Hd].
+  assert (W : wr s = WHolding u) by (destruct Hpc as [Hp|[Hp|Hp]]; rewrite Hp in Hd; exact Hd).
+  pose proof (i_hold _ R _ W) as E. split; [exact E|]. intros r q Er. exact (inv_no_exec _ _ _ R E Er).
+Qed.
+
+Lemma step_arr_frozen s l s' r q : step s l = Some s' -> reqs s r = Some q ->
+  exists q', reqs s' r = Some q' /\ r_arr_ret q' = r_arr_ret q /\ r_conn q' = r_conn q.
+Proof.
+  intros H E.
+  destruct l; cbn in H; step_inv H; pcs; proj.
+  all: try (exists q; repeat split; auto; fail).
+  all: match goal with |- context [fset _ ?k _ _] => destruct (N.eq_dec r k) as [->|Hne] end.
+  all: try (rewrite fset_neq by exact Hne; exists q; repeat split; auto; fail).
+  all: rewrite fset_eq; eexists; split; [reflexivity|].
+  all: try (match goal with E1 : reqs _ ?k = Some ?a, E2 : reqs _ ?k = Some ?b |- _ =>
+              assert (a = b) by congruence; subst end).
+  all: try congruence.
+  all: cbn; auto.
+Qed.
+Lemma run_arr_frozen tr : forall s s' r q, run s tr = Some s' -> reqs s r = Some q ->
+  exists q', reqs s' r = Some q' /\ r_arr_ret q' = r_arr_ret q /\ r_conn q' = r_conn q.
+Proof.
+  induction tr as [|l tr IH]; cbn; intros s s' r q H E.
+  - injection H as <-. eauto.
+  - destruct (step s l) as [s1|] eqn:Es; [|discriminate].
+    destruct (step_arr_frozen _ _ _ _ _ Es E) as (q1 & E1 & A1 & C1).
+    destruct (IH _ _ _ _ H E1) as (q2 & E2 & A2 & C2). exists q2. repeat split; congruence.
+Qed.
+
+(* u has returned, then r arrives, then anything happens: r is judged under u's version or a later one *)
+Lemma later_lemma p0 l0 tr1 tr2 s1 s2 s u qu r c q :
+  run (init p0 l0) tr1 = Some s1 -> upds s1 u = Some qu -> u_pc qu = UReturned ->
+  step s1 (Arrive r c) = Some s2 -> run s2 tr2 = Some s -> reqs s r = Some q ->
+  (admitted q = true -> u_ver qu <= r_adm q) /\
+  (passed_lim q -> u_ver qu <= r_limgen q /\ r_limgen q <= lim_gen s /\
+     forall u' qu', upds s u' = Some qu' -> swapped (u_pc qu') = true -> u_ver qu' = r_limgen q -> r_lim q = u_lim qu') /\
+  (passed_en q -> u_ver qu <= r_enver q) /\
+  (r_conn q <> None -> called q = true -> r_checked q = true \/ r_lim q = None \/ r_en q = false).
+Proof.
+  intros R1 Eu Pu St R2 Er.
+  pose proof (reachable_inv _ _ _ _ R1) as I1.
+  assert (Ret : u_ver qu <= retmax s1) by (apply (i_ver _ I1 _ _ Eu); exact Pu).
+  assert (E2 : exists q2, reqs s2 r = Some q2 /\ r_arr_ret q2 = retmax s1).
+  { cbn in St. destruct (reqs s1 r) eqn:En; [discriminate|].
+    destruct c as [k|]; [destruct (mem k (conns s1)); [|discriminate]|]; injection St as <-; cbn;
+    rewrite fset_eq; eexists; split; reflexivity. }
+  destruct E2 as (q2 & E2 & A2).
+  destruct (run_arr_frozen _ _ _ _ _ R2 E2) as (q' & E' & A' & _).
+  assert (q' = q) by congruence. subst q'.
+  assert (I : Inv s).
+  { apply (run_inv tr2 s2); [|exact R2]. exact (step_inv_preserved _ _ _ I1 St). }
+  destruct (i_req _ I _ _ Er) as (A & B & C & D & J & F & G & Hh & K).
+  repeat split.
+  - intros Ad. destruct (D Ad). lia.
+  - destruct (B H) as (B1 & _). lia.
+  - destruct (B H) as (_ & B2 & _). exact B2.
+  - destruct (B H) as (_ & _ & B3). exact B3.
+  - intros Pe. destruct (C Pe). lia.
+  - exact G.
+Qed.
+
+Lemma juke_step_lemma s r q : reqs s r = Some q -> r_pc q = RCalling -> draining s = true ->
+  exists s' q', step s (TryRLock r) = Some s' /\ reqs s' r = Some q' /\ r_pc q' = RJuke /\ readers s' = readers s.
+Proof.
+  intros E P D. cbn. rewrite E, P, D. cbn. eexists. eexists. split; [reflexivity|]. cbn. rewrite fset_eq. auto.
+Qed.
+Lemma admit_step_lemma s r q : reqs s r = Some q -> r_pc q = RCalling -> draining s = false ->
+  exists s' q', step s (TryRLock r) = Some s' /\ reqs s' r = Some q' /\ r_pc q' = RLocked /\ r_adm q' = cur s /\
+                readers s' = r :: readers s.
+Proof.
+  intros E P D. cbn. rewrite E, P, D. cbn. eexists. eexists. split; [reflexivity|]. cbn. rewrite fset_eq. auto.
+Qed.
+Lemma juke_trace_lemma s : reachable s -> forall r q, reqs s r = Some q ->
+  (r_pc q = RJuke -> r_drain q = true) /\ (admitted q = true -> r_drain q = false).
+Proof.
+  intros R r q E. apply reachable_Inv in R. destruct (i_req _ R _ _ E) as (A & B & C & D & J & _).
+  split; [exact J|]. intros Ad. apply D. exact Ad.
+Qed.
+(* the ghost r_drain is exactly "a writer was pending or holding when r tried the lock" *)
+Lemma try_sets_drain s r s' q' : step s (TryRLock r) = Some s' -> reqs s' r = Some q' -> r_drain q' = draining s.
+Proof.
+  intros H E. cbn in H. step_inv H; pcs; proj_in E; rewrite fset_eq in E; injection E as <-; cbn; congruence.
+Qed.
+(* while a writer is pending or holding nobody joins the readers *)
+Lemma drain_shrinks s l s' : draining s = true -> step s l = Some s' -> incl (readers s') (readers s).
+Proof.
+  intros D H. destruct l; cbn in H; step_inv H; pcs; proj; try apply incl_refl; try congruence.
+  all: intros x Hx; apply remove_r_In in Hx; tauto.
+Qed.
+
+Lemma progress_lemma s : reachable s -> readers s = [] ->
+  forall u q l, upds s u = Some q -> unext u q = Some l ->
+    enabled s l = true \/
+    (u_pc q = UCalled /\ exists h qh lh, pmu s = Some h /\ upds s h = Some qh /\ unext h qh = Some lh /\
+                                          enabled s lh = true).
+Proof.
+  intros R Rd u q l E N. apply reachable_Inv in R.
+  assert (Mid : forall h qh lh, upds s h = Some qh -> mid (u_pc qh) = true -> unext h qh = Some lh ->
+                                enabled s lh = true).
+  { intros h qh lh Eh Mh Nh. destruct (inv_holder _ _ _ R Eh Mh) as [P Hd].
+    unfold unext in Nh. unfold enabled.
+    destruct (u_pc qh) eqn:Pc; try discriminate; injection Nh as <-; cbn in Hd |- *; rewrite Eh, Pc; cbn;
+      rewrite ?Hd, ?Rd; try reflexivity.
+    destruct (negb (p_squash (cur_pol s) =? p_squash (u_pol qh))); reflexivity. }
+  destruct (mid (u_pc q)) eqn:M; [left; eapply Mid; eauto|].
+  unfold unext in N. destruct (u_pc q) eqn:Pc; try discriminate.
+  injection N as <-. destruct (pmu s) as [h|] eqn:P.
+  - right. split; [reflexivity|]. pose proof (i_pmu _ R) as Q. rewrite P in Q. destruct Q as (qh & Eh & Hd).
+    assert (Mh : mid (u_pc qh) = true) by (destruct (u_pc qh); cbn in Hd; try contradiction; reflexivity).
+    assert (exists lh, unext h qh = Some lh) as [lh Nh]
+      by (unfold unext; destruct (u_pc qh); try discriminate; eauto).
+    exists h, qh, lh. repeat split; auto. eapply Mid; eauto.
+  - left. unfold enabled. cbn. rewrite E, Pc, P. reflexivity.
+Qed.
+
+(* no request ever waits for an update: from every non-final program point some step of r is enabled *)
+Definition rnext (r : N) (q : req) : option label :=
+  match r_pc q with
+  | RArrived => Some (LimRead r)
+  | RLimRead => match r_lim q with Some _ => Some (EnRead r) | None => Some (Rate r true) end
+  | REnRead => Some (Rate r true)
+  | RCalling => Some (TryRLock r) | RLocked => Some (Snap r) | RSnapped => Some (Auth r true)
+  | RRunning => Some (Finish r) | RSent => Some (RUnlock r)
+  | RLimited | RJuke | RAuthDenied | RDone => None
+  end.
+Lemma req_progress_lemma s r q l : reqs s r = Some q -> rnext r q = Some l -> enabled s l = true.
+Proof.
+  intros E N. unfold rnext in N. unfold enabled.
+  destruct (r_pc q) eqn:P; try discriminate; try (injection N as <-; cbn; rewrite E, P; cbn; try reflexivity).
+  - destruct (r_lim q) eqn:L; injection N as <-; cbn; rewrite E, P, L; reflexivity.
+  - destruct (r_lim q); [destruct (r_en q)|]; reflexivity.
+  - destruct (draining s); reflexivity.
+Qed.
+
+Lemma norace_lemma s : reachable s ->
+  forall a b, In a (alog s) -> In b (alog s) -> conflict a b = true -> common_lock a b = true.
+Proof.
+  intros R a b Ha Hb C. apply reachable_Inv in R.
+  pose proof (i_alog _ R _ Ha) as La. pose proof (i_alog _ R _ Hb) as Lb.
+  unfold conflict in C. apply andb_prop in C. destruct C as [_ C].
+  unfold common_lock. apply existsb_exists.
+  destruct (a_write a), (a_write b); try discriminate.
+  - exists (LkRW, MW). split; [tauto|]. apply existsb_exists. exists (LkRW, MW). split; [tauto|reflexivity].
+  - destruct Lb as [Lb|Lb].
+    + exists (LkNmu, MW). split; [tauto|]. apply existsb_exists. exists (LkNmu, MR). split; [tauto|reflexivity].
+    + exists (LkRW, MW). split; [tauto|]. apply existsb_exists. exists (LkRW, MR). split; [tauto|reflexivity].
+  - destruct La as [La|La].
+    + exists (LkNmu, MR). split; [tauto|]. apply existsb_exists. exists (LkNmu, MW). split; [tauto|reflexivity].
+    + exists (LkRW, MR). split; [tauto|]. apply existsb_exists. exists (LkRW, MW). split; [tauto|reflexivity].
+Qed.
